@@ -153,6 +153,8 @@ def run_case(case, name):
             return gstate[c[1]]["passed"]
         if k == "main_returned":
             return progress["main_returned"]
+        if k == "never":                       # the gate holds for its whole timeout (a slow subscriber)
+            return False
         if k == "and":
             return all(cond_holds(x) for x in c[1:])
         if k == "or":
